@@ -12,6 +12,7 @@ fn setup(ctx: &mut Ctx) {
     ctx.floor("reads_offset_overflow_err", 10);
     ctx.floor("spec:NativeEndian", 100);
     ctx.floor("spec:AnyEndian::Big", 100);
+    ctx.floor("concrete-type-calls", 10_000);
     ctx.floor("offset:2^k+d", 1000);
 }
 
@@ -154,7 +155,48 @@ fn check_one<E: EndianParse>(ctx: &mut Ctx, spec: &str, e: E, big: bool, ty: Ty,
     }
 }
 
+/// The same reads through method-call syntax on the concrete spec values, the way user code calls them (an
+/// inherent method would shadow the trait method here, and only here).
+fn check_concrete(ctx: &mut Ctx, ty: Ty, off: usize, buf: &[u8]) {
+    macro_rules! direct {
+        ($spec:expr, $name:expr, $big:expr) => {{
+            let mut o = off;
+            let r: Result<i128, String> = match ty {
+                Ty::U8 => $spec.parse_u8_at(&mut o, buf).map(|v| v as i128).map_err(|e| format!("{e:?}")),
+                Ty::U16 => $spec.parse_u16_at(&mut o, buf).map(|v| v as i128).map_err(|e| format!("{e:?}")),
+                Ty::U32 => $spec.parse_u32_at(&mut o, buf).map(|v| v as i128).map_err(|e| format!("{e:?}")),
+                Ty::U64 => $spec.parse_u64_at(&mut o, buf).map(|v| v as i128).map_err(|e| format!("{e:?}")),
+                Ty::I32 => $spec.parse_i32_at(&mut o, buf).map(|v| v as i128).map_err(|e| format!("{e:?}")),
+                Ty::I64 => $spec.parse_i64_at(&mut o, buf).map(|v| v as i128).map_err(|e| format!("{e:?}")),
+            };
+            ctx.eval();
+            ctx.count("concrete-type-calls");
+            let exp = expected(ty, off, buf, $big);
+            let ok = match (&exp, &r) {
+                (Some(v), Ok(g)) => v == g && o == off + ty.w(),
+                (None, Err(_)) => o == off,
+                _ => false,
+            };
+            if !ok {
+                ctx.set_input(buf);
+                ctx.violation(
+                    &format!("{}:{}:direct-call", ty.name(), $name),
+                    format!("{}.{}(&mut {off}, {}) returned {:?} and left the offset at {o}; expected {:?} and offset {}", $name, ty.name(), hex(buf), r, exp, if exp.is_some() { off + ty.w() } else { off }),
+                );
+            }
+        }};
+    }
+    direct!(LittleEndian, "LittleEndian", false);
+    direct!(BigEndian, "BigEndian", true);
+    direct!(AnyEndian::Little, "AnyEndian::Little", false);
+    direct!(AnyEndian::Big, "AnyEndian::Big", true);
+    direct!(NativeEndian, "NativeEndian", cfg!(target_endian = "big"));
+}
+
 fn check_all_specs(ctx: &mut Ctx, ty: Ty, off: usize, buf: &[u8], record: bool) {
+    if record {
+        check_concrete(ctx, ty, off, buf);
+    }
     check_one(ctx, "LittleEndian", LittleEndian, false, ty, off, buf, record);
     check_one(ctx, "BigEndian", BigEndian, true, ty, off, buf, record);
     check_one(ctx, "AnyEndian::Little", AnyEndian::Little, false, ty, off, buf, record);
